@@ -293,6 +293,10 @@ def lp_items(pid, tier, seed):
             lambda i: optvecs(True, DIAG2, defaults +
                               [[("mincost", (1, 1))], [("minsqcost", (0, 1))],
                                [("gre", (1,))]]))
+        add("F4 (student lists over four projects, incl. three- and four-way ties) x {plast-lq1uq2,p1lq1} x (0,0) x {mincost,gre,gen}",
+            I.family_F4(profiles=("plast-lq1uq2", "p1lq1")),
+            lambda i: optvecs(True, ((False, False),),
+                              [[("mincost", ())], [("gre", ())], [("gen", ())]]))
         add("Q-structs x P x (0,0) x 9 default singles given at position 4 (a single criterion need not be at position 1)",
             [I.make3(ns, np_, nl, sp, le, lp, pq, lq3)
              for (ns, np_, nl, sp, le, lp) in I.Q_STRUCTS
